@@ -171,15 +171,20 @@ package tars
 //@   pure
 //@   ensures result == c.point
 //
-// Send hands the encoded request to the transport. Trusted: it changes nothing of the proxy's in-flight
-// counter or of the pending-reply table (the transport cannot name them; it reaches the adapter only through
-// the Recv/ParsePackage callbacks, which run on the receiving goroutine).
+// Send hands the encoded request to the transport and counts the send; it records no failure itself (the caller
+// does, once per failed call). The transport's Send is trusted to change nothing of the proxy's in-flight
+// counter, of the pending-reply table or of the health record (it cannot name them; it reaches the adapter only
+// through the Recv/ParsePackage callbacks, which run on the receiving goroutine).
+//
+//@ func (*AdapterProxy).sendAdd
+//@   requires c != nil
+//@   modifies c.sendCount
 //
 //@ func (*AdapterProxy).Send
-//@   trusted
-//@   requires c != nil && req != nil
+//@   requires c != nil && req != nil && c.servantProxy != nil && c.servantProxy.proto != nil && c.tarsClient != nil
 //@   modifies c.sendCount
 //@   allocates
+//@   ensures [C09,C15] c.failCount == old(c.failCount) && c.lastFailCount == old(c.lastFailCount)
 //
 //@ func (*Message).End
 //@   requires m != nil
